@@ -150,7 +150,7 @@ def check_bpm_random(ctx: Ctx, case) -> None:
 
 
 def drive_bpm_random(ctx: Ctx) -> None:
-    total = ctx.pick(300_000, 4_000_000)
+    total = ctx.pick(300_000, 12_000_000)
     per = total // ctx.nshards
     case = {"rng": ctx.sub_seed("bpm_random"), "count": per}
     ctx.current = case
@@ -381,6 +381,6 @@ PARTS: list[Part] = [
     custom_part("ts_anchor", drive_ts_anchor, check_ts_anchor, {"quick": 2, "thorough": 8}),
     hyp_part("lines", strat_lines, check_lines, {"quick": 1500, "thorough": 20000},
              {"quick": 2, "thorough": 16}),
-    hyp_part("e2e", strat_e2e, check_e2e, {"quick": 400, "thorough": 5000},
+    hyp_part("e2e", strat_e2e, check_e2e, {"quick": 400, "thorough": 10000},
              {"quick": 2, "thorough": 16}),
 ]
